@@ -201,6 +201,23 @@ def logical_bitmap_flips(data, L, hex_bitmap):
         b2[(bit - 1) // 8] ^= 0x80 >> ((bit - 1) % 8)
         head = bytes(b2).hex().encode('ascii') if hex_bitmap else bytes(b2)
         yield 'bitmapbit:%d' % bit, data[:4] + head + data[L.header:]
+    # bit 1 ("a second bitmap follows") cleared together with a change in the second half: the second half is always there
+    # and always read, so elements flagged in it still have to be present, and unflagged ones absent, whatever bit 1 says
+    upper = [a for (bit, a, end) in L.fields if bit > 64]
+    for bit in range(65, 129):
+        b2 = bytearray(bm)
+        b2[0] &= 0x7f
+        b2[(bit - 1) // 8] ^= 0x80 >> ((bit - 1) % 8)
+        head = bytes(b2).hex().encode('ascii') if hex_bitmap else bytes(b2)
+        yield 'bitmapbits:1off+%d' % bit, data[:4] + head + data[L.header:]
+        if upper:
+            # ... and with the bytes of every element above 64 taken away while their bits stay flagged
+            yield 'bitmapbits:1off+%d:upper_bytes_removed' % bit, data[:4] + head + data[L.header:min(upper)]
+    if upper:
+        b2 = bytearray(bm)
+        b2[0] &= 0x7f
+        head = bytes(b2).hex().encode('ascii') if hex_bitmap else bytes(b2)
+        yield 'bitmapbits:1off:upper_bytes_removed', data[:4] + head + data[L.header:min(upper)]
 
 
 def zero_length_fields(data, L, enc):
@@ -255,6 +272,10 @@ def constructed_overlaps(cfg, enc, hex_bitmap, mti='1240'):
     for e in var:
         w = 2 if cfg[str(e)]['field_type'] == 'LLVAR' else 3
         words = ['-%d' % k for k in range(1, 10)] if w == 2 else ['-%02d' % k for k in range(1, 100)]
+        if w == 3:
+            # int() also takes blanks (any Unicode white space) around the sign: ' -5', '-5 ', tab, line feed, no-break space ...
+            words += ['%s-%d' % (sp, k) for sp in ' \t\n\r\x0b\x0c\x1c\x1f\x85\xa0' for k in range(1, 10)]
+            words += ['-%d%s' % (k, sp) for sp in ' \t\n\xa0' for k in range(1, 10)]
         for f in fixed:
             if f <= e:
                 continue
@@ -262,10 +283,13 @@ def constructed_overlaps(cfg, enc, hex_bitmap, mti='1240'):
             for p in [None] + [x for x in fixed if x < e][:2]:
                 pw = cfg[str(p)]['field_length'] if p else 0
                 for word in words:
-                    k = -int(word)
+                    k = int(''.join(ch for ch in word if ch in '0123456789'))
                     if fw - k < 0 or (k > w and k - w > pw):
                         continue
-                    body = ('P' * pw + word + 'F' * (fw - k)).encode(enc)
+                    try:
+                        body = ('P' * pw + word + 'F' * (fw - k)).encode(enc)
+                    except UnicodeError:
+                        continue
                     present = [x for x in (p, e, f) if x]
                     yield ('overlap:DE%d%s->DE%d:%s' % (e, '(after DE%d)' % p if p else '', f, word),
                            mti.encode(enc) + bitmap_for(present, hex_bitmap) + body)
@@ -324,3 +348,35 @@ def icc_tails(data, L, cfg, enc):
                 if len(new) >= 10 ** w:
                     continue
                 yield 'icc_tail:DE%d@%d+%s' % (bit, cut, tail.hex()), data[:a] + ('%0*d' % (w, len(new))).encode(enc) + new + data[end:]
+
+
+def icc_long_form_lengths(data, L, cfg, enc):
+    """
+    BER long-form lengths in the ICC element: each TLV's length byte replaced by 0x81..0x84 followed by that many length
+    bytes, whose value - read unsigned, or signed by a careless reader - points back at the tag, back at the length byte,
+    nowhere, just ahead, or far past the end.  Written over the bytes that follow and, separately, inserted before them;
+    the element's own prefix is rewritten so the message stays well framed and the bytes reach the TLV walker.
+    """
+    for bit, a, end in L.fields:
+        c = cfg[str(bit)]
+        if c.get('field_processor') != 'ICC' or c['field_type'] == 'FIXED':
+            continue
+        w = 2 if c['field_type'] == 'LLVAR' else 3
+        body = data[a + w:end]
+        tags = sorted(o - (a + w) for (b2, o, what) in L.icc if b2 == bit and what == 'tag')
+        for (b2, o, what) in L.icc:
+            if b2 != bit or what != 'len':
+                continue
+            ln = o - (a + w)
+            tag_start = max([t for t in tags if t < ln and (t == 0 or t - 1 not in tags)] or [0])
+            for n in (1, 2, 3, 4):
+                hdr = ln - tag_start + 1 + n
+                top = 1 << (8 * n)
+                for label, v in (('to_tag', top - hdr), ('to_len', top - (1 + n)), ('minus1', top - 1), ('zero', 0), ('one', 1),
+                                 ('max_pos', top // 2 - 1), ('min_neg', top // 2), ('rest', max(0, len(body) - ln - 1 - n))):
+                    field = bytes([0x80 | n]) + (v % top).to_bytes(n, 'big')
+                    for how, new in (('over', body[:ln] + field + body[ln + 1 + n:]), ('ins', body[:ln] + field + body[ln + 1:])):
+                        if len(new) >= 10 ** w or (how == 'over' and len(body) < ln + 1 + n):
+                            continue
+                        yield ('icc_long_len:DE%d@%d:%d:%s:%s' % (bit, ln, n, label, how),
+                               data[:a] + ('%0*d' % (w, len(new))).encode(enc) + new + data[end:])
